@@ -427,8 +427,6 @@ stack::uptr
 op_merge::next (scon &sc) const
 {
   state &st = sc.get <state> (m_ll);
-  if (st.m_done)
-    return nullptr;
 
   while (! st.m_done)
     {
@@ -438,6 +436,11 @@ op_merge::next (scon &sc) const
 	st.m_idx = 0;
     }
 
+  // Upstream is drained for now.  But it may be an origin of a
+  // sub-expression, which is given another stack later on, so get
+  // ready to start over instead of staying done forever.
+  st.m_done = false;
+  st.m_idx = 0;
   return nullptr;
 }
 
